@@ -31,9 +31,15 @@ ASSUMPTIONS = [
 NSHARDS = 16
 
 FILES_IN = {'a.tex': 'MRKINA', 'c': 'MRKINC', 'd.latex': 'MRKIND', 'e.tex': 'MRKINETEX',
-            'e.latex': 'MRKINELATEX', 'sub/b.tex': 'MRKINB', 'sub/g': 'MRKING'}
+            'e.latex': 'MRKINELATEX', 'sub/b.tex': 'MRKINB', 'sub/g': 'MRKING',
+            # files that themselves include others (resolved against the input directory, not
+            # against the including file)
+            'n.tex': 'MRKINN \\input{../out/q} \\input{a} \\input{sub/n2}',
+            'sub/n2.tex': 'MRKINZ \\input{../../out/q} \\input{../top} \\include{../tex2/o}'}
 FILES_OUT = {'tex2/o.tex': 'MRKOUTO', 'tex2/a.tex': 'MRKOUTA2', 'texts/p.tex': 'MRKOUTP',
-             'out/q.tex': 'MRKOUTQ', 'out/r': 'MRKOUTR', 'out/a.tex': 'MRKOUTA', 'top.tex': 'MRKOUTTOP'}
+             'out/q.tex': 'MRKOUTQ', 'out/r': 'MRKOUTR', 'out/a.tex': 'MRKOUTA', 'top.tex': 'MRKOUTTOP',
+             # siblings that differ from the input directory's name only by case
+             'TEX/s.tex': 'MRKOUTS', 'Tex2/t.tex': 'MRKOUTT', 'TEX/a.tex': 'MRKOUTU'}
 # name -> (location relative to base, target)
 LINKS = {
     'lf': ('tex/lf.tex', '../out/q.tex'),
@@ -45,11 +51,13 @@ LINKS = {
     'back': ('out/back', '../tex'),
     'l2': ('tex/l2', '../tex2'),
     'lup': ('tex/sub/up', '../..'),
+    'lnk': ('out/lnk.tex', '../tex/n.tex'),     # outside name for an inside, including file
+    'lcase': ('tex/lcase', '../TEX'),
 }
 COMPONENTS = ['a', 'a.tex', 'c', 'd', 'd.latex', 'e', 'b', 'b.tex', 'g', 'q', 'q.tex', 'r', 'o',
               'o.tex', 'p', 'x', 'x.tex', 'y', 'lf', 'lf.tex', 'li', 'top', 'top.tex',
               '..', '..', '.', 'sub', 'out', 'tex', 'tex2', 'texts', 'ld', 'lsub', 'back', 'l2',
-              'up', 'nonexistent']
+              'up', 'nonexistent', 'n', 'n.tex', 'n2', 'TEX', 'Tex2', 's', 't', 'lnk']
 
 
 def layout_strategy():
@@ -84,9 +92,9 @@ def build(layout):
         d = os.path.join(real, 'texlink')
     markers = {}
     for rel, marker in FILES_IN.items():
-        markers[marker] = os.path.join(real, 'tex', rel)
+        markers[marker.split()[0]] = os.path.join(real, 'tex', rel)
     for rel, marker in FILES_OUT.items():
-        markers[marker] = os.path.join(real, rel)
+        markers[marker.split()[0]] = os.path.join(real, rel)
     return real, d, markers
 
 
@@ -130,8 +138,18 @@ def check_name(d, name, markers, res, case, via, l2t=None):
     from pylatexenc.latex2text import LatexNodes2Text
     res.case()
     if l2t is None:
+        # the ways strict mode gets switched on: explicitly, by the setter's default, by the
+        # constructor's default (attribute assignment), with a truthy non-bool
+        how = len(name) % 4
         l2t = LatexNodes2Text()
-        l2t.set_tex_input_directory(d, strict_input=True)
+        if how == 0:
+            l2t.set_tex_input_directory(d, strict_input=True)
+        elif how == 1:
+            l2t.set_tex_input_directory(d)
+        elif how == 2:
+            l2t.tex_input_directory = d
+        else:
+            l2t.set_tex_input_directory(d, strict_input=1)
     try:
         if via == 'read_input_file':
             out = l2t.read_input_file(name)
@@ -226,12 +244,83 @@ def check_layout(layout, res):
             check_name(d, name, markers, res, case, 'read_input_file', l2t=shared)
             check_name(d, name, markers, res, case, 'input', l2t=shared)
             res.label('history:strict-after-nonstrict')
+        more_histories(real, d, markers, layout, res)
         for ln in layout['links']:
             res.label('link:' + ln)
         if layout['dir_via_link']:
             res.label('input-dir-is-a-link')
     finally:
         shutil.rmtree(real, ignore_errors=True)
+
+
+def more_histories(real, d, markers, layout, res):
+    """histories on one converter: (a) strict reads under another directory first, then the
+    directory is changed (setter / attribute); (b) a file inside is read, then replaced by a link
+    to the outside, then read again; (c) the directory spelled in other ways"""
+    from pylatexenc.latex2text import LatexNodes2Text
+    lay = {'links': layout['links'], 'dir_via_link': layout['dir_via_link'], 'names': []}
+    out_dir = os.path.join(real, 'out')
+    for how in ('setter', 'attribute'):
+        conv = LatexNodes2Text()
+        try:
+            conv.set_tex_input_directory(out_dir, strict_input=True)
+            conv.read_input_file('q.tex')
+            conv.latex_to_text('\\input{q}\\input{r}')
+            if how == 'setter':
+                conv.set_tex_input_directory(d, strict_input=True)
+            else:
+                conv.tex_input_directory = d
+        except Exception as e:
+            res.fail(exc_key(e), exc_detail(e), {'layout': lay, 'via': 'history:switch'})
+            continue
+        for name in ('q.tex', 'q', 'r', 'a.tex', '../out/q.tex'):
+            case = {'layout': dict(lay, names=[[name.split('/'), None]]),
+                    'via': 'history:switch', 'how': how}
+            check_name(d, name, markers, res, case, 'read_input_file', l2t=conv)
+            check_name(d, name, markers, res, case, 'input', l2t=conv)
+        res.label('history:directory-switched')
+    # (b)
+    conv = LatexNodes2Text()
+    conv.set_tex_input_directory(d, strict_input=True)
+    sw = os.path.join(real, 'tex', 'sw.tex')
+    try:
+        open(sw, 'w').write('MRKINA again\n')
+        for name in ('sw.tex', 'sw'):
+            conv.read_input_file(name)
+            conv.latex_to_text('\\input{%s}' % name)
+        os.remove(sw)
+        os.symlink('../out/q.tex', sw)
+        for name in ('sw.tex', 'sw'):
+            case = {'layout': dict(lay, names=[[[name], None]]), 'via': 'history:file-replaced'}
+            check_name(d, name, markers, res, case, 'read_input_file', l2t=conv)
+            check_name(d, name, markers, res, case, 'input', l2t=conv)
+        res.label('history:file-replaced-by-link')
+    except Exception as e:
+        res.fail(exc_key(e), exc_detail(e), {'layout': lay, 'via': 'history:file-replaced'})
+    finally:
+        if os.path.lexists(sw):
+            os.remove(sw)
+    # (c)
+    cwd = os.getcwd()
+    try:
+        os.chdir(real)
+        spellings = [d + os.sep, os.path.join(d, '..', os.path.basename(d)),
+                     os.path.relpath(d, real), os.path.relpath(d, real) + os.sep,
+                     os.path.join('.', os.path.relpath(d, real))]
+        for sp in spellings:
+            conv = LatexNodes2Text()
+            conv.set_tex_input_directory(sp, strict_input=True)
+            for name in ('a.tex', 'a', '../out/q.tex', '../out/q', 'sub/../../out/q.tex',
+                         os.path.join(real, 'out', 'q.tex'), 'sub/b', '../tex2/o', '../TEX/s'):
+                case = {'layout': dict(lay, names=[[name.split('/'), None]]),
+                        'via': 'dir-spelling', 'spelling': sp}
+                check_name(sp, name, markers, res, case, 'read_input_file', l2t=conv)
+                check_name(sp, name, markers, res, case, 'input', l2t=conv)
+            res.label('directory-spelling')
+    except Exception as e:
+        res.fail(exc_key(e), exc_detail(e), {'layout': lay, 'via': 'dir-spelling'})
+    finally:
+        os.chdir(cwd)
 
 
 def check_no_directory(res):
@@ -269,7 +358,9 @@ def plan(tier, seed):
             'required_classes': ['vector:dotdot', 'vector:absolute', 'vector:link-or-fallback',
                                  'outcome:inside-file-designated',
                                  'outcome:outside-file-designated', 'input-dir-is-a-link',
-                                 'no-directory-set', 'history:strict-after-nonstrict'] + ['link:' + l for l in LINKS]}
+                                 'no-directory-set', 'history:strict-after-nonstrict',
+                                 'history:directory-switched', 'history:file-replaced-by-link',
+                                 'directory-spelling'] + ['link:' + l for l in LINKS]}
 
 
 def run_shard(shard, res):
@@ -289,7 +380,15 @@ def check_case(case, res):
     try:
         comps, absmode = lay['names'][0]
         name = make_name(real, comps, absmode)
-        if case['via'] == 'history':
+        if case['via'].startswith(('history:', 'dir-spelling')):
+            r2 = Result()
+            more_histories(real, d, markers, dict(lay, names=[]), r2)
+            for key, l in r2.failures.items():
+                for f in l:
+                    if f['case'].get('via') == case['via']:
+                        res.fail(key, f['detail'], case)
+            res.case()
+        elif case['via'] == 'history':
             from pylatexenc.latex2text import LatexNodes2Text
             shared = LatexNodes2Text()
             shared.set_tex_input_directory(d, strict_input=False)
